@@ -117,6 +117,8 @@ class History:
             self.count("ghost_inconclusive")
         elif not ok:
             self.fail("after %s member %s differs from the model of its multiset: %s" % (opdesc, m.tag, _fmt(d)), op=opdesc, ghost=[[S.jsonable(r), S.jsonable(w)] for r, w in m.items][:12])
+        for v in accessor_violations(m.obj, counters=self.counters):
+            self.fail("accessor invariant broken after %s on %s: %s" % (opdesc, m.tag, v), op=opdesc)
         if self.profile.get("invariants", True):
             viol = []
             invariants(self.sp, raw["data"], viol, self.counters)
@@ -242,6 +244,8 @@ class History:
             self.count("ghost_inconclusive")
         elif not ok:
             self.fail("after %s member %s differs from the model of its multiset: %s" % (desc, m.tag, _fmt(d)), op=desc)
+        for v in accessor_violations(m.obj, counters=self.counters):
+            self.fail("accessor invariant broken after %s on %s: %s" % (desc, m.tag, v), op=desc)
         if self.profile.get("invariants", True):
             viol = []
             invariants(self.sp, O.observe(m.obj)["data"], viol, self.counters)
@@ -420,6 +424,72 @@ def fingerprint(obj, depth=0):
         if name in d:
             parts.append(name + "=" + fingerprint(d[name], depth + 1))
     return "(" + " ".join(parts) + ")"
+
+
+def accessor_violations(obj, path="$", out=None, counters=None, depth=0):
+    """Invariant at a hook: the navigation accessors of a live tree (Branch.i0..i9, h(key), h.get(key), h.children)
+    hand out the very sub-aggregators that the state (values / pairs, i.e. what toJson serialises and fill updates)
+    holds.  A result whose accessors point at other objects reads and fills differently from what it serialises."""
+    out = [] if out is None else out
+    if depth > 8 or obj is None:
+        return out
+    from . import probes
+
+    k = probes.base_kind(obj) or type(obj).__mro__[0].__name__
+    d = getattr(obj, "__dict__", {})
+
+    def tick(name):
+        if counters is not None:
+            counters["accessor:" + name] = counters.get("accessor:" + name, 0) + 1
+
+    kids = []
+    try:
+        if k in ("Branch", "Index"):
+            vals = list(d.get("values", ()))
+            for j, v in enumerate(vals):
+                if k == "Branch" and j < 10:
+                    tick("Branch.iN")
+                    if getattr(obj, "i%d" % j, None) is not v:
+                        out.append("%s: Branch.i%d is not values[%d]" % (path, j, j))
+                tick(k + ".__call__")
+                if obj(j) is not v or obj.get(j) is not v:
+                    out.append("%s: %s(%d) / get(%d) is not values[%d]" % (path, k, j, j, j))
+                kids.append(("%s[%d]" % (path, j), v))
+        elif k in ("Label", "UntypedLabel"):
+            pairs = d.get("pairs", {})
+            for key, v in pairs.items():
+                tick(k + ".__call__")
+                if obj(key) is not v or obj.get(key) is not v:
+                    out.append("%s: %s(%r) / get(%r) is not pairs[%r]" % (path, k, key, key, key))
+                kids.append(("%s.%s" % (path, key), v))
+            if [id(v) for v in obj.values] != [id(v) for v in pairs.values()] or list(obj.keys) != list(pairs):
+                out.append("%s: %s.values / keys disagree with pairs" % (path, k))
+        else:
+            for name in ("underflow", "overflow", "nanflow", "numerator", "denominator", "cut"):
+                if name in d:
+                    kids.append((path + "." + name, d[name]))
+            v = d.get("values")
+            if isinstance(v, (list, tuple)) and k == "Bin":
+                kids.extend(("%s.values[%d]" % (path, j), e) for j, e in enumerate(v))
+            b = d.get("bins")
+            if isinstance(b, dict):
+                kids.extend(("%s.bins[%r]" % (path, kk), e) for kk, e in b.items())
+            elif isinstance(b, (list, tuple)):
+                kids.extend(("%s.bins[%d]" % (path, j), e[1]) for j, e in enumerate(b))
+        ch = getattr(obj, "children", None)
+        if ch is not None and kids:
+            tick("children")
+            ids = {id(c) for c in ch}
+            for pth, e in kids:
+                if id(e) not in ids:
+                    out.append("%s: children does not contain %s" % (path, pth))
+                    break
+    except Exception as e:  # noqa: BLE001
+        out.append("%s: accessor raised %s: %s" % (path, type(e).__name__, str(e)[:120]))
+    for pth, e in kids:
+        if hasattr(e, "toJsonFragment"):
+            accessor_violations(e, pth, out, counters, depth + 1)
+    return out
 
 
 def _close(a, b):
